@@ -2,7 +2,7 @@ package main
 
 // `wide` scenario (C06, Go-side oracle only: the Lean text metric covers printable ASCII and
 // escape sequences, not multi-byte or wide characters): views whose lines contain 2- and 3-byte
-// characters of one cell (é, €), wide characters of two cells (世, 한, 🙂) and SGR sequences are
+// characters of one cell (é, €), wide characters of two cells (世, 한, 🙂), DEL (one byte, no cell) and SGR sequences are
 // rendered by the real standardRenderer; the Go VT (UTF-8 aware here) must show, after every
 // render, exactly the latest view: each line cut at `width` CELLS (a wide character that does
 // not fit is dropped, and nothing after it is shown), the rows below blank.
@@ -20,9 +20,19 @@ func init() { scenarios["wide"] = scenWide }
 
 var wideAlphabet = []string{"a", "b", " ", "é", "ü", "€", "世", "界", "한", "🙂", "\x1b[1m", "\x1b[0m", "\x1b[38;5;201m", "x", "y"}
 
+// asciiDelAlphabet: printable ASCII up to '~' and DEL (0x7f), which is a byte below 0x80 that is NOT
+// printable: one byte, no cell.
+var asciiDelAlphabet = []string{"a", "b", " ", "x", "~", "}", "\x7f", "\x7f", "0"}
+
 func genWideLine(r *rng, w int) string {
 	n := r.intn(w + 3)
 	var sb strings.Builder
+	if r.chance(1, 4) {
+		for i := 0; i < n; i++ {
+			sb.WriteString(asciiDelAlphabet[r.intn(len(asciiDelAlphabet))])
+		}
+		return sb.String()
+	}
 	for i := 0; i < n; i++ {
 		sb.WriteString(wideAlphabet[r.intn(len(wideAlphabet))])
 	}
@@ -37,6 +47,10 @@ func cutCells(l string, w int) string {
 	cur := 0
 	for len(l) > 0 {
 		r, n := utf8.DecodeRuneInString(l)
+		if r == 0x7f { // DEL takes no cell and shows nothing
+			l = l[n:]
+			continue
+		}
 		c := runeCells(r)
 		if cur+c > w {
 			break
